@@ -174,11 +174,42 @@ def boxdomain_problem(rng, n, m, fmt="coo"):
     return prob, x0, {}
 
 
+class QuarticInfeasible(Problem):
+    """min 1/2 |x|^2  s.t.  K (x_1^4 + 1) = 0: infeasible, violation >= K, degenerate minimiser of the violation at x_1 = 0
+    (iterates approach it gradually)."""
+
+    def __init__(self, n, K):
+        self.K = float(K)
+        super().__init__(np.full(n, -INF), np.full(n, INF), num_cons=1)
+
+    def obj(self, x):
+        return float(0.5 * x @ x)
+
+    def obj_grad(self, x):
+        return np.array(x, dtype=float)
+
+    def cons(self, x):
+        return np.array([self.K * (x[0] ** 4 + 1.0)])
+
+    def cons_jac(self, x):
+        J = np.zeros((1, x.size))
+        J[0, 0] = self.K * 4.0 * x[0] ** 3
+        return sps.coo_matrix(J)
+
+    def lag_hess(self, x, y):
+        H = np.eye(x.size)
+        H[0, 0] += y[0] * self.K * 12.0 * x[0] ** 2
+        return sps.coo_matrix(H)
+
+
 def infeasible_problem(rng, n):
-    """Inconsistent affine rows / box-infeasible row: locally infeasible."""
+    """Inconsistent affine rows / box-infeasible row / badly scaled degenerate infeasibility: locally infeasible."""
     Q = np.eye(n)
     c = rng.standard_normal(n)
-    kind = rng.integers(0, 3)
+    kind = rng.integers(0, 4)
+    if kind == 3:
+        K = float(10.0 ** rng.integers(0, 6))
+        return QuarticInfeasible(n, K), np.concatenate([[rng.uniform(0.5, 1.5)], rng.standard_normal(n - 1)]), {}
     if kind == 0:  # a'x = 1 and a'x = -1
         a = rng.standard_normal(n)
         A = np.vstack([a, a])
